@@ -238,6 +238,12 @@ func genC01(r *simrt.Rand, tier string, idx uint64) *Plan {
 				cp.Ops = append(cp.Ops, Op{Kind: "wait"})
 			case 2:
 				cp.Ops = append(cp.Ops, Op{Kind: "sleep", N: r.Intn(300)})
+			case 3:
+				op := genCallOp(r, &big)
+				if p.Codec != "bytes" && r.Chance(1, 2) {
+					op.Bad = "encode" // fails on the client before anything is sent; neighbours must be unaffected
+				}
+				cp.Ops = append(cp.Ops, op)
 			default:
 				cp.Ops = append(cp.Ops, genCallOp(r, &big))
 			}
